@@ -78,7 +78,7 @@ theorem array_compose (o : Opt) (d : Nat) (xs : List Bytes) (hd : d < o.maxDepth
 allowed — the names are pairwise distinct as JSON strings (`nameKey` = the decoded name). -/
 theorem object_compose (o : Opt) (d : Nat) (ms : List (Bytes × Bytes)) (hd : d < o.maxDepth)
     (h : ∀ m ∈ ms, validString o m.1 = true ∧ validAt o (d + 1) m.2 = true)
-    (hk : o.noDup = true → (ms.map fun m => nameKey m.1).Nodup) : validAt o d (obj ms) = true :=
+    (hk : o.noDup = true → (ms.map fun m => o.key m.1).Nodup) : validAt o d (obj ms) = true :=
   object_compose' o d ms hd h hk
 
 /-- Nesting costs exactly one level: the children are judged at depth `d + 1`, the container is valid when
